@@ -78,6 +78,8 @@ class Connection:
         self.connection_id: int = 0
         self._kill: Optional[KillKind] = None
         self._task: Optional[asyncio.Task] = None
+        # True while a command of this connection is being handled
+        self._executing = False
 
     @property
     def server_charset(self) -> CharacterSet:
@@ -124,9 +126,21 @@ class Connection:
             await self.session.close()
 
     def kill(self, kind: KillKind = KillKind.CONNECTION) -> None:
-        if self._task:
-            self._kill = kind
-            self._task.cancel()
+        if not self._task:
+            return
+        if kind == KillKind.QUERY:
+            try:
+                current_task = asyncio.current_task()
+            except RuntimeError:  # not called from the event loop
+                current_task = None
+            if not self._executing or current_task is self._task:
+                # There is no statement of this connection to interrupt
+                return
+            if self._kill == KillKind.CONNECTION:
+                # The connection is already being terminated
+                return
+        self._kill = kind
+        self._task.cancel()
 
     async def connection_phase(self) -> None:
         default_auth_plugin = self.identity_provider.get_default_plugin()
@@ -302,6 +316,7 @@ class Connection:
                 logger.info("Connection closed")
                 return
             try:
+                self._executing = True
                 command = data[0]
                 rest = data[1:]
 
@@ -343,10 +358,12 @@ class Connection:
                 # A refused COM_CHANGE_USER ends the connection
                 return
             except MysqlError as e:
+                self._executing = False
                 logger.error(e)
                 await self.stream.write(self.error(msg=e.msg, code=e.code))
             except asyncio.CancelledError:
                 if self._kill == KillKind.QUERY:
+                    self._executing = False
                     logger.info("Query killed on connection %s", self.connection_id)
                     if self._task and hasattr(self._task, "uncancel"):  # python >=3.11
                         self._task.uncancel()
@@ -359,9 +376,11 @@ class Connection:
                 else:
                     raise
             except Exception as e:  # pylint: disable=broad-except
+                self._executing = False
                 logger.exception(e)
                 await self.stream.write(self.error(msg=e))
             finally:
+                self._executing = False
                 self.stream.reset_seq()
 
     async def handle_ping(self, data: bytes) -> None:  # pylint: disable=unused-argument
